@@ -20,7 +20,7 @@ RULE = ("each generated host program with sub-graph call sites (sub-graphs with 
 ASSUMPTIONS = ["vp/model.py flattening is the definition of 'inlined' behaviour", "variants of one group differ only in the how= of the call sites",
                "g++-12 -O1 build of the working tree with harness-side shims"]
 FLOORS = {"variant_pairs_compared": {"quick": 500, "thorough": 8000}, "child_evals_time_checked": {"quick": 5000, "thorough": 80000},
-          "child_timer_wakeups": {"quick": 300, "thorough": 4000}, "nested_in_dynamic_child_cases": {"quick": 30, "thorough": 500}}
+          "child_timer_wakeups": {"quick": 300, "thorough": 4000}, "nested_in_dynamic_child_cases": {"quick": 30, "thorough": 500}, "structured_result_ticks_compared": {"quick": 600, "thorough": 10000}}
 BATCH = 24
 
 
@@ -55,6 +55,122 @@ def variants(rng, base):
     return out
 
 
+def gen_quad_case(rng, name):
+    """A sub-graph whose RESULT is a re-arrangement of its one structured parameter (a 2x2 grid of time-series), wired inline,
+    nested and nested twice over the same source - a node that owns the grid, or a grid assembled from four independent ports."""
+    from .prog import Case
+    end = rng.choice([16, 24])
+    c = Case(name, 0, end)
+    perm = rng.choice([1, 1, 2, 2, 3, 4, 5, 6])
+    peered = rng.random() < 0.5
+    main = []
+    if peered:
+        sc, v = [], 0
+        for t in sorted(rng.sample(range(0, end), rng.choice([4, 8, 12]))):
+            ops = []
+            for (i, j) in rng.sample([(0, 0), (0, 1), (1, 0), (1, 1)], rng.choice([1, 1, 2, 4])):
+                v += 1
+                ops.append(f"[{i}][{j}]={v}")
+            sc.append(f"{t}|" + ",".join(ops))
+        c.cscripts[1] = sc
+        main.append(S("q", "csrc", shape="qq", uid=1))
+    else:
+        v = 0
+        for n, u in enumerate((1, 2, 3, 4)):
+            ts = sorted(rng.sample(range(0, end), rng.choice([2, 4, 7])))
+            c.scripts[u] = [(t, 100 * u + k) for k, t in enumerate(ts)]
+            main.append(S(f"l{u}", "src", uid=u, mode=1))
+        main.append(S("q", "quad", "l1", "l2", "l3", "l4"))
+    for n, uid in ((0, 20), (1, 21), (2, 22)):
+        main.append(S(f"r{n}", "quadsub", "q", perm=perm, nest=n))
+        main.append(S("", "cmirror", f"r{n}", uid=uid))
+    c.graphs["main"] = main
+    c.meta.update(quad=1, perm=perm, peered=1 if peered else 0)
+    return c
+
+
+def check_quad(case, tr):
+    from .gen_coll import parse_dumps, write_log
+    res = Result(signature=case.text().split("\n", 1)[1])
+    run = tr.runs[0]
+    if tr.build_error or run.error:
+        res.violations.append(Violation(f"build/run failed: {tr.build_error or run.error}"))
+        return res
+    perm = case.meta["perm"]
+    writes = {}                                # t -> {(i, j): v}
+    if case.meta["peered"]:
+        for t, ops in write_log(run).get(1, []):
+            for op in ops:
+                i, j = int(op[1]), int(op[4])
+                writes.setdefault(t, {})[(i, j)] = int(op.split("=")[1])
+    else:
+        for u, (i, j) in zip((1, 2, 3, 4), ((0, 0), (0, 1), (1, 0), (1, 1))):
+            for t, v in case.scripts[u]:
+                if case.start <= t < case.end:
+                    writes.setdefault(t, {})[(i, j)] = v
+    src_of = {1: lambda i, j: (1 - i, j), 2: lambda i, j: (1 - i, j), 3: lambda i, j: (i, 1 - j), 4: lambda i, j: (j, i),
+              5: lambda i, j: (1 - i, 1 - j), 6: lambda i, j: (i, j)}[perm]
+    dumps = parse_dumps(run)
+    streams = {}
+    for uid in (20, 21, 22):
+        st = {}
+        for t, d, _ in dumps.get(uid, []):
+            vals = tuple(tuple((int(leaf["val"]) if leaf["v"] else None) for leaf in row["ch"]) for row in d["ch"])
+            mods = tuple(tuple(leaf["m"] for leaf in row["ch"]) for row in d["ch"])
+            st[t] = (vals, mods)
+        streams[uid] = st
+    V, known = [], []
+    dead = set()
+    grid = {}
+    prev_vals = {}
+    ticks = 0
+    for t in sorted(writes):
+        grid.update(writes[t])
+        exp_vals = tuple(tuple(grid.get(src_of(i, j)) for j in (0, 1)) for i in (0, 1))
+        exp_mods = tuple(tuple(1 if src_of(i, j) in writes[t] else 0 for j in (0, 1)) for i in (0, 1))
+        for uid, how in ((20, "inlined"), (21, "nested"), (22, "nested twice")):
+            got = streams[uid].get(t)
+            ticks += 1
+            if got is not None:
+                pv = prev_vals.get(uid)
+                prev_vals[uid] = got[0]
+                prev_vals[(uid, "before")] = pv
+            else:
+                pv = prev_vals.get(uid)
+            if got is None and uid != 20 and perm == 6 and not case.meta["peered"] and not streams[uid]:
+                # known finding F21: a nested graph that returns its structured parameter unchanged is compiled as an alias of
+                # the owner's input; when that input is ASSEMBLED from several ports the alias has no output to forward
+                dead.add(how)
+            elif got is None:
+                V.append(f"{how}: the result did not tick at t={t} although leaves {sorted(writes[t])} of the parameter ticked")
+            elif uid != 20 and got[0] == exp_vals and got != (exp_vals, exp_mods) and (
+                    t in sorted(streams[uid])[:2] or pv is None or any(pv[i][j] is None and got[0][i][j] is not None for i in (0, 1) for j in (0, 1))):
+                # known finding (F4 / F12 mechanism): the nested node's forwarding output is (re)bound at its first evaluation and
+                # whenever a further leaf acquires a value, and that binding marks every leaf modified although only some were written
+                known.append(f"{how}: at t={t} (one of the nested node's first two evaluations / a leaf acquiring its first value) the nested result reads every leaf as "
+                             f"modified {got[1]}, inlined only the written ones {exp_mods}")
+            elif got != (exp_vals, exp_mods):
+                V.append(f"{how}: result at t={t} is values {got[0]} modified {got[1]}, expected the re-arranged parameter values {exp_vals} "
+                         f"modified {exp_mods} (perm {perm}, {'owned' if case.meta['peered'] else 'assembled'} source)")
+    for uid, how in ((21, "nested"), (22, "nested twice")):
+        extra = sorted(set(streams[uid]) - set(writes))
+        if extra and extra == [min(streams[uid])] and not any(v is not None for row in streams[uid][extra[0]][0] for v in row):
+            known.append(f"{how}: the nested result ticks at its first evaluation (t={extra[0]}) with no value at all")
+        elif extra:
+            V.append(f"{how}: result ticked at {extra[:5]} although no leaf of the parameter did")
+    for m in V[:5]:
+        res.violations.append(Violation(m))
+    if known:
+        res.violations.append(Violation(known[0], "forwarding-output-bind-marks-modified"))
+    if dead:
+        res.violations.append(Violation(f"{sorted(dead)}: the result of a nested graph that returns its structured parameter unchanged never "
+                                        f"ticks when the argument is assembled from several ports (inlined it ticks with every leaf)",
+                                        "nested-result-aliasing-assembled-argument-is-dead"))
+    res.counters = {"structured_result_ticks_compared": ticks, "structured_result_cases": 1}
+    res.nontrivial = ticks >= 6
+    return res
+
+
 def generate(rng, tier, seed):
     n = 150 if tier == "quick" else 2500
     cases = []
@@ -77,6 +193,7 @@ def generate(rng, tier, seed):
             c.meta["delegate"] = "c12" if "spec" in c.meta else "c10"
             cases.append(c)
             got += 1
+    cases += [gen_quad_case(rng, f"c09_{seed}_q{k}") for k in range(n // 3)]
     from .witness import f4_case
     cases.append(f4_case(f"c09_{seed}_witnessF4"))
     return cases
@@ -102,6 +219,8 @@ def check(case, tr):
     if case.meta.get("witness"):
         from .witness import check_witness
         return check_witness(case, tr)
+    if case.meta.get("quad"):
+        return check_quad(case, tr)
     if case.meta.get("delegate"):
         from . import c10, c12
         r = (c12 if case.meta["delegate"] == "c12" else c10).check(case, tr)
